@@ -1,5 +1,5 @@
 CONSTANTS
-  MaxBlocks = 3
+  MaxBlocks = 2
   MaxInv = 0
   TxU <- TxUDef
   Lists <- ListsC01
